@@ -13,4 +13,7 @@ Extraction "../ocaml/c16/model.ml"
   doc_ser_value_ordered doc_typeck_value_ordered doc_ser_row_ordered doc_typeck_row_ordered
   doc_deser_value_ordered doc_deser_row_ordered vordered_plain rordered_plain
   back_value rback_value outcome_agrees cells_eqb rdesc_wf
+  doc_ser_value_ordered_am doc_typeck_value_ordered_am doc_deser_value_ordered_am
+  doc_ser_value_snc doc_typeck_value_snc doc_deser_value_snc
+  doc_ser_row_ordered_gen doc_typeck_row_snc doc_deser_row_snc nodupb rt_okb
   enc_signed dec_signed. (* the last two only pull the Z datatype needed by ocaml/common/conv.ml *)
